@@ -33,13 +33,24 @@ def run(ctx):
     w = where(facts.fns[COMPACT]["span"])
     lps = loops_of(ft)
     cfg = ft.cfg
-    # the returned working vector
+    # the working vector: the loop-carried vector whose elements are handed to cell_to_parent; the function returns it
+    # (or the vector that replaces it at the end of a pass)
     oks = [t for t in returns_under(ft, {}) if is_variant(t, "Ok")]
-    work = [t[3][0] for t in oks if t[3][0][0] == "phi"]
+    pp0 = [c for c in ft.calls() if c.callee and c.callee.endswith("Vec::push") and any(x[0] == "call" and x[1] == PARENT for x in walk(c.args[1]))]
+    work = []
+    if len(pp0) == 1:
+        pc0 = [x for x in walk(pp0[0].args[1]) if x[0] == "call" and x[1] == PARENT][0]
+        e0 = elem(pc0[2][0])
+        if e0 is not None and e0[0][0] == "phi" and e0[0][1] == ft.path:
+            work = [e0[0]]
     if len(work) != 1:
-        run.bad("C08.K1", "working-vector", "cannot identify the loop-carried working vector among %s - unrecognised idiom" % [fmt(t) for t in oks], w)
+        run.bad("C08.K1", "working-vector", "cannot identify the loop-carried working vector (the one whose elements are merged into parents) - unrecognised idiom; results: %s" % [fmt(t)[:60] for t in oks], w)
         return
     cur = work[0]
+    succs = {strip_site(cur)} | {strip_site(o) for o in ft.phi_operands(cur).values()}
+    is_empty_vec = lambda v: v[0] == "call" and isinstance(v[1], str) and v[1].endswith("Vec::new") and not v[2]
+    run.inst("C08.K1", "returns-working-vector", bool(oks) and all(strip_site(t[3][0]) in succs or is_empty_vec(t[3][0]) for t in oks),
+             "the result is the working vector after the last pass: %s" % [fmt(t[3][0])[:50] for t in oks], w)
     outer_head = cur[2]
     outer = [l for l in lps if l.head == outer_head]
     if not outer:
@@ -150,7 +161,7 @@ def run(ctx):
     run.inst("C08.K2", "flag-sources", len(trues) >= 1 and len(falses) >= 2 and not other,
              "all-siblings flag takes constants only: %d true source(s), %d false source(s), %d other" % (len(trues), len(falses), len(other)), where(pp.span))
     # the verification loop
-    inner = [l for l in lps if l.head != outer_head and l.next and l.source is not None and l.body < outer.body and not any(l.body < m.body < outer.body for m in lps if m.next)]
+    inner = [l for l in lps if l.head != outer_head and (l.next or l.counter) and l.source is not None and l.body < outer.body and not any(l.body < m.body < outer.body for m in lps if (m.next or m.counter))]
     ver = None
     for l in inner:
         src = peel(l.source)
